@@ -168,6 +168,19 @@ def oracle_likelihood(case):
             require(np.isfinite(l1), 'get_likelihood(u)=%r for u=%r although the log-likelihood is finite (%r)' % (l1, u[0].tolist(), want), tag='likelihood-finite')
     # dict round trip
     twin = value(VineCopula.from_dict, vd, what='from_dict')
+    # the same point as a labelled pandas row whose labels are in another order: refused, or the same value
+    import pandas as pd
+
+    names_ = list(df.columns)
+    rot = names_[1:] + names_[:1]
+    for label_, arg_ in (('Series', pd.Series({c: float(u[0, names_.index(c)]) for c in rot})),
+                         ('one-row DataFrame', pd.DataFrame([[float(u[0, names_.index(c)]) for c in rot]], columns=rot))):
+        kd_, got_ = call(vine.get_likelihood, arg_, allow=(Exception,), what='get_likelihood(%s)' % label_)
+        if kd_ == 'ok':
+            got_ = float(np.ravel(np.asarray(got_, dtype=float))[0])
+            require(got_ == l1 or abs(got_ - l1) <= 1e-9 * (1 + abs(l1)) or (np.isnan(got_) and np.isnan(l1)),
+                    'get_likelihood of the same point given as a %s with labels %r is %r, as an array in training order %r' % (label_, rot, got_, l1),
+                    tag='likelihood-labelled-row')
     l3 = float(value(twin.get_likelihood, u.copy(), what='get_likelihood(round-trip)'))
     require(l3 == l1 or abs(l3 - l1) <= 1e-12 * (1 + abs(l1)), 'get_likelihood after from_dict(to_dict): %r, before: %r' % (l3, l1), tag='likelihood-roundtrip')
     # poisoned np.empty
